@@ -137,6 +137,20 @@ fn long_case(tier: Tier) -> BoxedStrategy<Case> {
         })
         .boxed()
 }
+/// very long runs (beyond 2^16 and 2^17 updates) of every single view: counters narrower than usize, periodic re-synchronisation
+/// and anything else that only happens after tens of thousands of updates
+fn ultra_cases(tier: Tier) -> Vec<Case> {
+    let len = tier.pick(135_000usize, 1_200_000usize);
+    let mut out = vec![];
+    for n in [3usize, 7, 16] {
+        for (w, o) in outers(&Spec::Echo, n).into_iter().enumerate() {
+            for shape in [0i64, 1] {
+                out.push(Case { spec: Some(o.clone()), ints: vec![(0x5EED_0000 + 131 * w + 7 * n) as i64 + shape, len as i64, shape], a: Rat(1, 1), ..Default::default() });
+            }
+        }
+    }
+    out
+}
 fn long_check(case: &Case) -> Verdict {
     let spec = case.spec();
     let (seed, len, shape) = (case.ints[0] as u64, case.ints[1] as usize, case.ints[2]);
@@ -316,6 +330,7 @@ pub fn clauses() -> Vec<Clause> {
         Clause::enumerated("C08", "C08/singles/enumerated", "Enumerated: every view over Echo with the full secondary-parameter grid, N in 1..40 (thorough ..64; configurations that panic are C15's), 12 stream classes (single, constant, zeros, ties, up, down, alternating, noise, sum-zero, shorter than N, exactly N, long mix), every third class extended by a flat tail of 3N+5; f64 at magnitudes 1e-3..1e6. Oracle: once last() has returned a value it returns one after every later update, and every value is finite. Non-trivial: became ready and >= N further updates.", singles_enum, rf_check).with_shard(1000),
         Clause::generated("C08", "C08/chains/generated", "Generated two-level trees (unary over unary / binary, binary over unaries) with in-domain structure, grammar streams of 0..12N+50 values (flats, zero sums, zero bases, ties, spikes). Same oracle.", 8000, 300_000, chains, rf_check).with_shard(500),
         Clause::generated("C08", "C08/long/generated", "Single views over streams of 5e3 / 2e4 (thorough 1e6) values derived from a generated seed: wide noise, walk with 257-step plateaus (flat after volatile), zero stretches, ties around a level. Same oracle.", 160, 1600, long_case, long_check).with_shard(8),
+        Clause::enumerated("C08", "C08/ultra/enumerated", "Enumerated: every view over Echo at N in {3, 7, 16}, two stream shapes (wide noise; walk with 257-step plateaus), 135 000 values (thorough 1.2e6): past 2^16 and 2^17 updates, where a narrowed counter wraps or saturates. Same oracle at every step.", ultra_cases, long_check).with_shard(16),
         Clause::enumerated("C08", "C08/warmup/enumerated", "Enumerated: the statement's warm-up table x N in 1..40 (thorough ..128) x leaf withholding its first k in {0,1,4} inputs x 5 stream classes (constant, zeros, noise, sum-zero, long mix): the first value is reported after exactly (documented warm-up + k) updates (Sma, Ema, SuperSmoother, Rsi, MyRSI: N; RoofingFilter(N,M): N+M+1; LnReturn: 2; WelfordOnline, Vst, Vsct: between N-1 and N; Echo, Min, Max, Cumulative, Alma, CoG, BinaryEntropy, GTE, LTE, Tanh, LaguerreFilter: 1).", warm_cases, warm_check).with_shard(500),
         Clause::enumerated("C08", "C08/undelivered/enumerated", "Enumerated: every (wrapper, inner) pair of the catalogue built over leaves that never deliver (Mute) or withhold their first k in {1,5} inputs (Gate): for as long as a twin of the inner view reports nothing, the wrapper's last() must keep returning exactly what it returned before the first update. Non-trivial: at least 3 such updates.", mute_cases, mute_check).with_shard(500),
     ]
